@@ -97,11 +97,11 @@ theorem run_fresh (s : UniqueNames) (ops : List NameOp) (ps : List Pred) (s' : U
           · exact hrec q hq
 
 /-- **Freshness of invented predicates.**  For every program, every input declaration and every sequence of
-requests, the predicates handed out are pairwise distinct and distinct from every predicate of the source and of
-the declaration. -/
+requests, the predicates handed out are pairwise distinct and distinct from every predicate of the source (its atoms and its
+`#show p/n.` signatures) and of the declaration. -/
 theorem C07_fresh_pred (prg : Prog) (inputs : List Pred) (ops : List NameOp) :
     ∃ ps s', (UniqueNames.init prg inputs).run ops = some (ps, s') ∧
-      ps.Nodup ∧ ∀ p ∈ ps, p ∉ inputs ∧ p ∉ prg.allPreds := by
+      ps.Nodup ∧ ∀ p ∈ ps, p ∉ inputs ∧ p ∉ prg.allPreds ∧ p ∉ showSigs prg := by
   have ht := C07_names_total (UniqueNames.init prg inputs) ops
   cases hr : (UniqueNames.init prg inputs).run ops with
   | none => rw [hr] at ht; simp at ht
@@ -112,7 +112,7 @@ theorem C07_fresh_pred (prg : Prog) (inputs : List Pred) (ops : List NameOp) :
     intro p hp
     have := hd p hp
     simp only [UniqueNames.init, List.mem_append, not_or] at this
-    exact this
+    exact ⟨this.1.1, this.1.2, this.2⟩
 
 /-! ### variables -/
 
